@@ -32,16 +32,16 @@ def main():
     rc, head = sh("git -C /repo rev-parse --short HEAD")
     meta["base_repo_commit"] = head.strip()
     try:
-        rc, out = sh(f"git apply --3way {d}/patch.diff", cwd=wt)
-        if rc != 0:
-            rc2, out2 = sh(f"git apply {d}/patch.ported.diff", cwd=wt) if os.path.exists(f"{d}/patch.ported.diff") else (1, "")
-            if rc2 != 0:
-                meta["applies"] = False
-                meta["apply_output"] = out[-600:]
-                return meta
-            meta["applied"] = "patch.ported.diff"
+        if os.path.exists(f"{d}/patch.ported.diff"):
+            rc, out = sh(f"git apply {d}/patch.ported.diff", cwd=wt)
+            meta["applied"] = "patch.ported.diff (hand-ported to the repaired tree)"
         else:
+            rc, out = sh(f"git apply --3way {d}/patch.diff", cwd=wt)
             meta["applied"] = "patch.diff (3-way)"
+        if rc != 0:
+            meta["applies"] = False
+            meta["apply_output"] = out[-600:]
+            return meta
         sh("git reset -q", cwd=wt)
         meta["applies"] = True
         env = dict(os.environ, PYTHONPATH="/repo")
